@@ -46,7 +46,8 @@ pub const VARIANT_NAMES: [&str; N_VARIANTS] = [
     "V8_client_dies_in_the_middle_of_a_message",
 ];
 
-const LONG_PROGRAM: &str = ".test \"t\" {\n    ldx #0\nouter:\n    ldy #0\ninner:\n    iny\n    bne inner\n    inx\n    bne outer\n    brk\n}\n";
+// (the assertion about memory is evaluated by the machine thread through the `ram` function the debugger registers)
+const LONG_PROGRAM: &str = ".test \"t\" {\n    ldx #0\nouter:\n    ldy #0\ninner:\n    iny\n    .assert ram($20) == ram($20)\n    bne inner\n    inx\n    bne outer\n    brk\n}\n";
 const ENDLESS_SUB_PROGRAM: &str =
     ".test \"t\" {\n    lda #1\n    jsr forever\n    brk\nforever:\n    jmp forever\n}\n";
 const SHORT_PROGRAM: &str = ".test \"t\" {\n    lda #1\n    ldx #2\n    brk\n}\n";
